@@ -31,7 +31,7 @@ theorem applyStep_version {lib : List Nat} {r : Nat} {f : File} {s : Step} (h : 
   cases s with
   | bump => exact absurd rfl h
   | addId => simp only [applyStep]; split <;> rfl
-  | prop p => simp only [applyStep, convertProp]; split <;> rfl
+  | prop p => simp only [applyStep, convertProp]; split <;> (try split) <;> rfl
   | dim a d => simp only [applyStep, convertDim]; split <;> rfl
 
 theorem runSteps_nil (lib : List Nat) (r : Nat) (f : File) : runSteps lib r f [] = (f, none) := rfl
@@ -84,7 +84,7 @@ theorem applyStep_validId {lib : List Nat} {r : Nat} {f : File} {s : Step} (h : 
   | addId => simp only [applyStep, h]; simpa using h
   | prop p =>
     simp only [applyStep, convertProp]
-    split <;> simpa [hasValidId] using h
+    split <;> (try split) <;> simpa [hasValidId] using h
   | dim a d =>
     simp only [applyStep, convertDim]
     split <;> simpa [hasValidId] using h
